@@ -45,6 +45,7 @@ def models(draw, spec, max_assets=6, weird_names=False, explicit_ids=False, atta
     n = draw(st.integers(min_assets, max_assets)) if concrete else 0
     assets = []
     used_ids = set()
+    next_id = 0
     for i in range(n):
         t = draw(st.sampled_from(concrete))
         name = draw(st.sampled_from(WEIRD_NAMES)) if weird_names else PLAIN_NAMES[i % 10] + ('' if i < 10 else str(i))
@@ -53,8 +54,10 @@ def models(draw, spec, max_assets=6, weird_names=False, explicit_ids=False, atta
             aid = draw(st.sampled_from([0, -1, -3, 7, 2, 11]))
             if aid in used_ids:
                 aid = None
-        if aid is not None:
-            used_ids.add(aid)
+        # ids are reserved by earlier assets whether requested or assigned automatically
+        eff = aid if aid is not None else next_id
+        used_ids.add(eff)
+        next_id = max(eff + 1, next_id)
         dv = {}
         if defenses:
             for dname in sorted(defenses_of(L, t)):
